@@ -23,6 +23,7 @@ R10  event payload bytes: `ev.data[k]` is reached only where the event is a chan
 """
 import collections, re
 from ..core import *
+from ..core import _exits as core_exits
 from ..logic import *
 from ..e1 import Engine, State, Poly
 from ..e1c import Avail
@@ -964,6 +965,8 @@ def r6(facts):
     limit_ifs = []
     def rec3(t):
         if isinstance(t, dict):
+            if any(t is l_ for l_ in loops):
+                return          # tests inside the event loop are its exit tests, not the give-up branch after it
             if t.get('k') == 'IfStmt' and t.get('cond') is not None:
                 for f in literals(t['cond'], True):
                     n_ = cmp_norm(f) if f[0] == 'cmp' else None
@@ -1013,9 +1016,31 @@ def r6(facts):
     return out
 
 
+def stay_literals(l, callee):
+    """what holds whenever the loop body reaches its call of `callee`: the loop condition and the negation of every `if(c) break;`
+    (or return) that stands in the body before that call (`while(a && b)` and `for(;;) { if(!a) break; if(!b) break; ..` are the same loop)"""
+    lits = [f for f in literals(l['cond'], True) if f[0] != 'or'] if l.get('cond') is not None else []     # conjuncts only
+    body = l.get('body')
+    items = body.get('body', []) if isinstance(body, dict) and body.get('k') == 'CompoundStmt' else [body]
+    for it in items:
+        if not isinstance(it, dict):
+            continue
+        calls_it = any(short(callee_name(y)) == callee for y in walk(it))
+        if it.get('k') == 'IfStmt' and it.get('else') is None and core_exits(it.get('then')) and not any(short(callee_name(y)) == callee for y in walk(it.get('then'))):
+            # the test itself may be the call (`if(!processEvents()) break;`): what stands before it still counts, the rest does not
+            if calls_it:
+                break
+            lits += [f for f in literals(it['cond'], False) if f[0] != 'or']
+            continue
+        if calls_it:
+            break
+        if it.get('k') not in ('DeclStmt', 'NullStmt'):
+            break       # anything else may change what the tests said
+    return lits
+
+
 def antifreeze(fn, l):
-    c = l.get('cond')
-    lits = list(flat(literals(c, True)))
+    lits = stay_literals(l, 'processEvents')
     counter = None
     for f in lits:
         if f[0] == 'cmp':
@@ -1385,9 +1410,26 @@ def _evkey(e):
     return t
 
 
+def _append_wrappers(facts):
+    """functions that do `P.push_back(Q)` on two of their own parameters: name -> (index of P, index of Q).  A call of one
+    is an append to its P argument (helpers extracted from the sorting code keep the bucket rule applicable)"""
+    out = {}
+    for fn in facts.all_fns():
+        if fn.tree is None or not fn.file.startswith(build.REPO):
+            continue
+        pid = {p['id']: i for i, p in enumerate(fn.params)}
+        for x in calls_in(fn.tree):
+            if short(callee_name(x)) == 'push_back' and x.get('obj') is not None and x.get('a'):
+                o, a = strip(x['obj']), strip(x['a'][0])
+                if o.get('k') == 'DeclRefExpr' and a.get('k') == 'DeclRefExpr' and o.get('id') in pid and a.get('id') in pid:
+                    out[fn.name] = (pid[o['id']], pid[a['id']])
+    return out
+
+
 def r10(facts):
     out = []
     n = 0
+    wrappers = _append_wrappers(facts)
     for fn in facts.all_fns():
         if fn.relfile() not in ('src/midi_sequencer_impl.hpp', 'src/midi_sequencer.hpp', 'src/opnmidi_sequencer.cpp') or fn.tree is None:
             continue
@@ -1396,9 +1438,16 @@ def r10(facts):
         bucket_types = {}
         for b, j, st in stmts:
             for x in calls_in(st['s']):
+                tgt = src_e = None
                 if short(callee_name(x)) == 'push_back' and x.get('obj') is not None and strip(x['obj']).get('k') == 'DeclRefExpr' and x.get('a'):
-                    bname = short(strip(x['obj'])['n'])
-                    src = _evkey(x['a'][0])
+                    tgt, src_e = strip(x['obj']), x['a'][0]
+                elif callee_name(x) in wrappers and x.get('obj') is None:
+                    pi, qi = wrappers[callee_name(x)]
+                    if len(x.get('a') or []) > max(pi, qi) and strip(x['a'][pi]).get('k') == 'DeclRefExpr':
+                        tgt, src_e = strip(x['a'][pi]), x['a'][qi]
+                if tgt is not None:
+                    bname = short(tgt['n'])
+                    src = _evkey(src_e)
                     tys = set()
                     for f in guard_facts(fn, b, st):
                         if f[0] == 'cmp' and f[1] == '==' and strip(f[2]).get('k') == 'MemberExpr' and short(strip(f[2])['n']) == 'type' and _evkey(strip(f[2])['b']) == src:
